@@ -24,6 +24,7 @@ inductive Src where
 inductive Guard where
   | eqf (i : Nat) (f : Fld) (j : Nat) (g : Fld)   -- in[n+i].f == in[n+j].g
   | eqc (i : Nat) (f : Fld) (c : Int)             -- in[n+i].f == c
+  | nec (i : Nat) (f : Fld) (c : Int)             -- in[n+i].f != c
   deriving Repr, DecidableEq
 
 /-- one `case` of the peephole `switch`: window pattern, guards, output -/
